@@ -52,7 +52,8 @@ theorem imagesQ_badKey {p : Program} {s : St} (inv : Inv p s) {k : Key} (hk : p.
 
 theorem imagesRound_ok {p : Program} (wf : WF p) {fuel : Nat} (hf : p.length < fuel) :
     ∀ (ks : List Key) (cache : List (Key × Val)) (s : St), Inv p s →
-      ∀ t, t ∈ imagesRound p fuel ks cache s → Inv p t ∧ inputsOf t = inputsOf s ∧ t.epoch = s.epoch := by
+      ∀ t, t ∈ imagesRound p fuel ks cache s →
+        Inv p t ∧ inputsOf t = inputsOf s ∧ t.epoch = s.epoch ∧ extOf p t = extOf p s ∧ t.world = s.world := by
   intro ks
   induction ks with
   | nil => intro cache s _ t ht; simp [imagesRound] at ht
@@ -66,7 +67,7 @@ theorem imagesRound_ok {p : Program} (wf : WF p) {fuel : Nat} (hf : p.length < f
       · cases ht with
         | inl ht =>
           have h := images_ok wf fuel k (by komega) s inv t ht
-          exact ⟨h.inv, h.inputs, h.epoch⟩
+          exact ⟨h.inv, h.inputs, h.epoch, h.ext, h.world⟩
         | inr ht =>
           have hq := query_spec wf fuel k (by komega) s inv
           cases hr : query p fuel k s with
@@ -76,45 +77,51 @@ theorem imagesRound_ok {p : Program} (wf : WF p) {fuel : Nat} (hf : p.length < f
             rw [hr] at ht hq
             obtain ⟨i1, f1, _⟩ := hq
             simp only at i1 f1 ht
-            obtain ⟨a, b, c⟩ := ih (cache ++ [(k, v)]) s1 i1 t ht
-            exact ⟨a, by rw [b, f1.inputs], by rw [c, f1.epoch]⟩
+            obtain ⟨a, b, c, d, e⟩ := ih (cache ++ [(k, v)]) s1 i1 t ht
+            exact ⟨a, by rw [b, f1.inputs], by rw [c, f1.epoch], by rw [d, f1.ext], by rw [e, f1.world]⟩
       · obtain ⟨f, rfl⟩ : ∃ f, fuel = f + 1 := ⟨fuel - 1, by omega⟩
         rw [imagesQ_badKey inv (by komega), query_badKey inv (by komega) f] at ht
         simp at ht
 
-/-- every store image of a history satisfies the invariant and shows the inputs of a prefix of it -/
+/-- every store image of a history satisfies the invariant and shows the inputs, the external
+    values, the world and the timestamp of the state reached by a prefix of it -/
 theorem imagesOps_ok {p : Program} (wf : WF p) :
     ∀ (ops : List Op) (s : St), Inv p s → ∀ t, t ∈ imagesOps p ops s →
-      Inv p t ∧ ∃ pre, pre <+: ops ∧ inputsOf t = inputsAfter pre (inputsOf s) := by
+      Inv p t ∧ ∃ pre outs sp, pre <+: ops ∧ runOps p pre s = .ok (outs, sp) ∧
+        inputsOf t = inputsAfter pre (inputsOf s) ∧ inputsOf t = inputsOf sp ∧
+        extOf p t = extOf p sp ∧ t.world = sp.world ∧ t.epoch = sp.epoch := by
   intro ops
   induction ops with
   | nil => intro s _ t ht; simp [imagesOps] at ht
   | cons op rest ih =>
     intro s inv t ht
     cases op with
-    | sess sets =>
+    | sess ws =>
       simp only [imagesOps] at ht
-      cases hs : session p sets { s with log := [] } with
+      cases hs : session p ws { s with log := [] } with
       | error e => rw [hs] at ht; simp at ht
       | ok r =>
         obtain ⟨rs, s1⟩ := r
         rw [hs] at ht
         obtain ⟨i1, _, h2, _, _⟩ := session_spec (inv.setLog []) hs
-        have h2 : inputsOf s1 = applyWrites sets (inputsOf s) := h2
+        have h2 : inputsOf s1 = applyWrites ws (inputsOf s) := h2
         simp only [List.mem_cons] at ht
         cases ht with
         | inl e =>
           subst e
-          exact ⟨i1, [.sess sets], by simp, by simp [inputsAfter, h2]⟩
+          exact ⟨i1, [.sess ws], [.sess rs], t, by simp, by simp [runOps, hs],
+            by simp [inputsAfter, h2], rfl, rfl, rfl, rfl⟩
         | inr ht =>
-          obtain ⟨a, pre, hp, hi⟩ := ih s1 i1 t ht
-          exact ⟨a, .sess sets :: pre, by simpa using hp, by simp [inputsAfter, hi, h2]⟩
+          obtain ⟨a, pre, outs, sp, hp, hr, hi, r1, r2, r3, r4⟩ := ih s1 i1 t ht
+          exact ⟨a, .sess ws :: pre, .sess rs :: outs, sp, by simpa using hp, by simp [runOps, hs, hr],
+            by simp [inputsAfter, hi, h2], r1, r2, r3, r4⟩
     | round ks =>
       simp only [imagesOps, List.mem_append] at ht
       cases ht with
       | inl ht =>
-        obtain ⟨a, b, _⟩ := imagesRound_ok wf (fuel := fuelFor p) (by simp [fuelFor]) ks [] _ (inv.setLog []) t ht
-        exact ⟨a, [], by simp, by rw [b]; rfl⟩
+        obtain ⟨a, b, c, d, e⟩ :=
+          imagesRound_ok wf (fuel := fuelFor p) (by simp [fuelFor]) ks [] _ (inv.setLog []) t ht
+        exact ⟨a, [], [], s, by simp, rfl, by rw [b]; rfl, b, d, e, c⟩
       | inr ht =>
         have hrd := round_spec wf (inv.setLog []) ks
         cases hr : round p (fuelFor p) ks { s with log := [] } with
@@ -124,8 +131,9 @@ theorem imagesOps_ok {p : Program} (wf : WF p) :
           rw [hr] at ht hrd
           obtain ⟨_, i1, f1⟩ := hrd
           simp only at i1 f1 ht
-          obtain ⟨a, pre, hp, hi⟩ := ih s1 i1 t ht
+          obtain ⟨a, pre, outs, sp, hp, hr2, hi, r1, r2, r3, r4⟩ := ih s1 i1 t ht
           have : inputsOf s1 = inputsOf s := f1.inputs
-          exact ⟨a, .round ks :: pre, by simpa using hp, by simp [inputsAfter, hi, this]⟩
+          exact ⟨a, .round ks :: pre, .round vs s1.log :: outs, sp, by simpa using hp,
+            by simp [runOps, hr, hr2], by simp [inputsAfter, hi, this], r1, r2, r3, r4⟩
 
 end Qbice.Core
